@@ -38,17 +38,33 @@ NODE = [[4, 2, 2], 100, 10, None]
 DEPTH = {'quick': 4, 'thorough': 5}
 PREFIX = 2
 LABEL = '_default'
-MUST_FIRE = ('priority_changed_into_class_of_later_arrival',
+MUST_FIRE = ('rank_adjustment_changed_under_instances',
+             'priority_changed_into_class_of_later_arrival',
              'assignment_priority_changed_under_instances',
              'cycles_judged', 'reloads', 'queues_with_2plus_instances')
 
 
-def _allocations(aprio):
+# The allocation's configuration is one integer: the assignment priority,
+# plus 100 when its rank adjustment has been reconfigured to 0.
+def _prio_of(code):
+    return code % 100
+
+
+def _adj_of(code):
+    return NODE[2] if code < 100 else 0
+
+
+def _node_of(code):
+    return [NODE[0], NODE[1], _adj_of(code), NODE[3]]
+
+
+def _allocations(code):
     return [{'name': 't', 'partition': LABEL,
              'memory': '%dM' % NODE[0][0], 'cpu': '%d%%' % NODE[0][1],
              'disk': '%dM' % NODE[0][2],
-             'rank': NODE[1], 'rank_adjustment': NODE[2],
-             'assignments': [{'pattern': 'p1.*', 'priority': aprio}]}]
+             'rank': NODE[1], 'rank_adjustment': _adj_of(code),
+             'assignments': [{'pattern': 'p1.*',
+                              'priority': _prio_of(code)}]}]
 
 
 def _name(i):
@@ -63,7 +79,9 @@ def enabled(man, aprio):
         evs += [('submit', p) for p in PRIOS]
     for i, cur in enumerate(man):
         evs += [('prio', i, p) for p in PRIOS if p != cur]
-    evs += [('aprio', p) for p in APRIOS if p != aprio]
+    evs += [('aprio', p) for p in APRIOS if p != _prio_of(aprio)]
+    # the rank adjustment of the allocation reconfigured (10 <-> 0)
+    evs += [('adj', 0 if aprio < 100 else NODE[2])]
     evs += [('reload',), ('cycle',)]
     return evs
 
@@ -74,7 +92,9 @@ def step_abs(man, aprio, ev):
     if ev[0] == 'prio':
         return man[:ev[1]] + (ev[2],) + man[ev[1] + 1:], aprio
     if ev[0] == 'aprio':
-        return man, ev[1]
+        return man, ev[1] + (100 if aprio >= 100 else 0)
+    if ev[0] == 'adj':
+        return man, _prio_of(aprio) + (0 if ev[1] else 100)
     return man, aprio
 
 
@@ -135,7 +155,7 @@ class World:
             i = ev[1]
             self.backend.data['/scheduled/' + _name(i)] = self._manifest(i)
             self.ldr.load_app(_name(i))
-        elif kind == 'aprio':
+        elif kind in ('aprio', 'adj'):
             self.backend.data['/allocations'] = _allocations(self.aprio)
             self.ldr.load_allocations()
             self.ldr.load_apps()
@@ -188,21 +208,23 @@ def judge_step(obs):
     man = obs['manifest']
     n = len(man)
     names = [_name(i) for i in range(n)]
-    eff = [obs['assignment_priority'] if p is None else p for p in man]
+    code = obs['assignment_priority']
+    node = _node_of(code)
+    eff = [_prio_of(code) if p is None else p for p in man]
     kind = obs['event'][0]
     bad = []
     if obs['model_priority'] != eff:
         bad.append(('loader-assignment', 'Loader.load_app (re-read)',
                     {'observed': obs['model_priority'], 'expected': eff}))
     apps = [(0, eff[i], DEMAND, obs['running'][i]) for i in range(n)]
-    ref = M.reference([NODE], apps, names)
-    bad += M.judge([NODE], apps, names, ref, obs['queue'],
+    ref = M.reference([node], apps, names)
+    bad += M.judge([node], apps, names, ref, obs['queue'],
                    M.SITE_QUEUE + ' after Loader ' + kind)
     if obs['handed'] is not None:
         rb = obs['running_before_cycle']
         apps = [(0, eff[i], DEMAND, rb[i]) for i in range(n)]
-        ref = M.reference([NODE], apps, names)
-        bad += M.judge([NODE], apps, names, ref, obs['handed'],
+        ref = M.reference([node], apps, names)
+        bad += M.judge([node], apps, names, ref, obs['handed'],
                        M.SITE_HANDED + ' after Loader history',
                        dict(zip(names, obs['placed'])))
     return bad
@@ -221,7 +243,8 @@ def chunks(tier):
 def describe(tier):
     depth = DEPTH[tier]
     return {
-        'events': ['submit(p)', 'prio(i, p)', 'aprio(p)', 'reload', 'cycle'],
+        'events': ['submit(p)', 'prio(i, p)', 'aprio(p)', 'adj(0|10)',
+                   'reload', 'cycle'],
         'manifest_priority': list(PRIOS), 'assignment_priority': list(APRIOS),
         'initial_assignment_priority': APRIO0, 'instances': MAXI,
         'allocation': NODE, 'demand': list(DEMAND), 'depth': depth,
@@ -249,9 +272,11 @@ def worker(chunk):
                 cnt['queues_with_2plus_instances'] += 1
                 interesting = True
             # ---- antecedents (abstract state only)
-            eff0 = [aprio if p is None else p for p in man]
+            eff0 = [_prio_of(aprio) if p is None else p for p in man]
             man, aprio = step_abs(man, aprio, ev)
-            eff1 = [aprio if p is None else p for p in man]
+            eff1 = [_prio_of(aprio) if p is None else p for p in man]
+            if ev[0] == 'adj' and man:
+                cnt['rank_adjustment_changed_under_instances'] += 1
             if ev[0] in ('prio', 'aprio'):
                 for i in range(len(eff0)):
                     if eff0[i] != eff1[i] and eff1[i] in eff1[i + 1:]:
